@@ -149,6 +149,7 @@ var reUnsafe = regexp.MustCompile(`[^A-Za-z0-9_.\-]+`)
 
 func cmdCheck(prop, tier string, jobs int) int {
 	start := time.Now()
+	currentTier = tier
 	seed, _ := strconv.Atoi(envOr("VERIF_SEED", "0"))
 	evPath := filepath.Join(verifDir, "evidence", prop+".json")
 	if os.Getenv("VERIF_REPO") != "" && os.Getenv("VERIF_REPO") != "/repo" {
